@@ -28,7 +28,7 @@ def eval_body(stmts, den, sens, extra):
 
     def ex(n):
         n = n.strip()
-        k = key(n, True)
+        k = key(n)
         if k == den:
             return cur
         if k == sens:
@@ -50,7 +50,7 @@ def eval_body(stmts, den, sens, extra):
         raise ValueError(k)
 
     for st in stmts:
-        if st.k in ("BinaryOperator", "CompoundAssignOperator") and key(st.c[0].strip(), True) == den:
+        if st.k in ("BinaryOperator", "CompoundAssignOperator") and key(st.c[0].strip()) == den:
             r = ex(st.c[1])
             cur = {"=": r, "+=": cur + r, "*=": cur * r, "/=": cur / r, "-=": cur - r}[st.op]
         elif st.k in ("UnaryOperator", "CXXOperatorCallExpr") and st.op in ("++", "--"):
@@ -88,31 +88,55 @@ def run(ctx):
     app = [c for c in f.calls() if (c.callee or "").endswith("apply_multiplicative_update")]
     ok = len(gs) == 1 and len(grad) == 1 and len(sens) == 1 and len(app) == 1 and len(divs) == 2
     det = "calls: get_subset_num x%d, gradient x%d, sensitivity x%d, divide x%d, apply x%d" % (len(gs), len(grad), len(sens), len(divs), len(app))
+    from engine.algebra import LocalDefs
+
+    defs = LocalDefs(f)
+    inl = defs.binding_map()  # single-definition locals and references by what they are bound to: names never matter
+    K = lambda x: key(x, False, inl)
+    d0 = dden = None
     if ok:
         sub = [m for m in f.walk() if m.k == "VarDecl" and m.c and any(x is gs[0] for x in m.c[0].walk())]
-        sv = sub[0].get("n") if sub else None
-        a_g = [key(a, True) for a in grad[0].call_args()]
-        a_s = [key(a, True) for a in sens[0].call_args()]
+        sv = "v%d" % sub[0].get("d") if sub and defs.single_def(sub[0].get("d")) is not None else None
+        a_g = [key(a) for a in grad[0].call_args()]
+        a_s = [key(a) for a in sens[0].call_args()]
         same_subset = sv is not None and a_g[-1] == sv and a_s == [sv]
-        upd = a_g[0]
+        upd = K(grad[0].call_args()[0])
         order = cfg.dominates(grad[0], divs[0]) and cfg.dominates(grad[0], divs[1]) and cfg.must_pass_from_entry(app, lambda x: x.i in {d.i for d in divs}) is None
-        target = key(app[0].call_args()[1], True) == upd and all(key(d.call_args()[0], True).startswith(upd.replace("*", "").split(".")[0]) or upd.strip("*") in key(d.call_args()[0], True) for d in divs)
+        target = K(app[0].call_args()[1]) == upd and all(K(d.call_args()[0]) == upd + ".begin_all()" and K(d.call_args()[1]) == upd + ".end_all()" for d in divs)
         ok = same_subset and order and target
-        det = "subset %s used for gradient and sensitivity=%s; gradient -> divide -> apply order=%s; same update image=%s" % (sv, same_subset, order, target)
+        det = "one subset number used for gradient and sensitivity=%s; gradient -> divide -> apply order=%s; same update image=%s" % (same_subset, order, target)
     ctx.ob("C07.a-subiteration-structure", f.qn, "order-and-operands", ok, f.where(), det)
     # prior-zero branch divides by the subset sensitivity
     if len(divs) == 2 and sens:
-        sens_var = [m for m in f.walk() if m.k == "VarDecl" and m.c and any(x is sens[0] for x in m.c[0].walk())]
-        sname = sens_var[0].get("n") if sens_var else "?"
-        d0 = None
         for d in divs:
             facts = cfg.facts_at(d)
             if any("prior_is_zero()" in k and tv is True for k, tv, _r in facts):
                 d0 = d
-        ok = d0 is not None and key(d0.call_args()[2], True) == "%s.begin_all()" % sname
-        ctx.ob("C07.a-subiteration-structure", f.qn, "no-prior:divide-by-subset-sensitivity", ok, (d0 or divs[0]).where(), "without prior the update is divided by %s (the sensitivity of the drawn subset)" % sname if ok else "prior-free branch does not divide by the subset sensitivity")
+            else:
+                dden = d
+        ok = d0 is not None and K(d0.call_args()[2]) == K(sens[0]) + ".begin_all()"
+        ctx.ob("C07.a-subiteration-structure", f.qn, "no-prior:divide-by-subset-sensitivity", ok, (d0 or divs[0]).where(), "without prior the update is divided by the sensitivity of the drawn subset" if ok else "prior-free branch does not divide by the subset sensitivity")
     # ---- b
-    loops = [m for m in f.walk() if m.k == "WhileStmt" and "denominator_iter" in key(m.c[0], True)]
+    # the denominator image is the object the prior branch divides by; its iterator and the sensitivity's iterator are found by
+    # what they are initialised from
+    den_obj = None
+    if dden is not None:
+        m = re.fullmatch(r"(\*?v\d+)\.begin_all\(\)", key(dden.call_args()[2]))
+        den_obj = m.group(1) if m else None
+    den_it = sens_it = None
+    for d_, vd in defs.decl.items():
+        if not vd.c:
+            continue
+        ik = key(vd.c[0].strip())
+        ikl = K(vd.c[0])
+        if den_obj is not None and ik == den_obj + ".begin_all()":
+            den_it = d_
+        if sens and ikl == K(sens[0]) + ".begin_all()":
+            sens_it = d_
+    if den_it is None or sens_it is None:
+        ctx.unrec(f.qn, "cannot find the iterators over the MAP denominator image and over the subset sensitivity (by their initialisers)")
+        return
+    loops = [m for m in f.walk() if m.k == "WhileStmt" and any(x.k == "DeclRefExpr" and x.get("d") == den_it for x in m.c[0].walk())]
     want = {}
     for lp in loops:
         facts = cfg.facts_at(lp.c[0]) if lp.c[0].i in cfg.pos else frozenset()
@@ -125,7 +149,7 @@ def run(ctx):
         stmts = [s for s in (body.c if body.k == "CompoundStmt" else [body])]
         try:
             extra = {}
-            val, g, s = eval_body(stmts, "*denominator_iter", "*sensitivity_iter", extra)
+            val, g, s = eval_body(stmts, "*v%d" % den_it, "*v%d" % sens_it, extra)
         except ValueError as ex:
             ctx.unrec(f.qn, "MAP denominator loop at line %d: %s" % (lp.line, ex))
             continue
@@ -171,7 +195,7 @@ def run(ctx):
         ctx.ob("C07.b-MAP-denominator", f.qn, "clamp:" + model, bool(ok), "%s:%d" % (f.file, lp.line), "denominator = %s" % val if ok else "denominator %s is not %s" % (val, target))
         want[model] = lp
         # the division by the denominator follows the loop
-        dd = [d for d in divs if "denominator_ptr" in key(d.call_args()[2], True)]
+        dd = [dden] if dden is not None else []
         okd = bool(dd) and lp.c[0].i in cfg.pos and cfg.must_pass_from_entry([lp.c[1].c[0]] if lp.c[1].c else [], lambda x: False) is not None
         after = bool(dd) and cfg.paths_avoiding([cfg.pos[dd[0].i]], lambda x: False, target_pred=lambda x, lp=lp: x.i == lp.c[0].i, to_exit=False) is None
         ctx.ob("C07.b-MAP-denominator", f.qn, "divide-after-clamp:" + model, after, dd[0].where() if dd else f.where(), "the division by the denominator comes after the clamping loop (the loop is not reachable from it)" if after else "division precedes the clamping loop")
